@@ -177,3 +177,9 @@ Proof. exact eq_refl. Qed.
 (* nothing else in the production package touches Router.mu / Router.tree / Txn.rootTxn or loads the tree *)
 Example sync_sites_ok : GenSync.sync_sites = expected_sync_sites.
 Proof. exact eq_refl. Qed.
+
+(* the router's shared mutable state is exactly what the protocol models: the tree pointer and the writer lock *)
+Example router_shared_state_ok :
+  GenSync.router_sync_fields = expected_router_sync_fields /\
+  GenSync.router_field_writers = expected_router_field_writers.
+Proof. exact (conj eq_refl eq_refl). Qed.
